@@ -31,8 +31,8 @@ func globalIdent(old ast.GlobalIdent) ir.GlobalIdent {
 	}
 	ident = ident[len(prefix):]
 	// positive integer -> ID
-	// everything else (including negative integer) -> Name
-	if id, err := strconv.ParseInt(ident, 10, 64); err == nil && id >= 0 {
+	// everything else (including negative integer and negative zero) -> Name
+	if id, err := strconv.ParseInt(ident, 10, 64); err == nil && id >= 0 && ident[0] != '-' {
 		return ir.GlobalIdent{GlobalID: id}
 	}
 	// Unquote after trying to parse as ID, since @"42" is recognized as named
@@ -53,8 +53,8 @@ func localIdent(old ast.LocalIdent) ir.LocalIdent {
 	}
 	ident = ident[len(prefix):]
 	// positive integer -> ID
-	// everything else (including negative integer) -> Name
-	if id, err := strconv.ParseInt(ident, 10, 64); err == nil && id >= 0 {
+	// everything else (including negative integer and negative zero) -> Name
+	if id, err := strconv.ParseInt(ident, 10, 64); err == nil && id >= 0 && ident[0] != '-' {
 		return ir.LocalIdent{LocalID: id}
 	}
 	// Unquote after trying to parse as ID, since %"42" is recognized as named
@@ -75,8 +75,8 @@ func labelIdent(old ast.LabelIdent) ir.LocalIdent {
 	}
 	ident = ident[:len(ident)-len(suffix)]
 	// positive integer -> ID
-	// everything else (including negative integer) -> Name
-	if id, err := strconv.ParseInt(ident, 10, 64); err == nil && id >= 0 {
+	// everything else (including negative integer and negative zero) -> Name
+	if id, err := strconv.ParseInt(ident, 10, 64); err == nil && id >= 0 && ident[0] != '-' {
 		return ir.LocalIdent{LocalID: id}
 	}
 	// Unquote after trying to parse as ID, since %"42" is recognized as named
